@@ -454,3 +454,186 @@ class Frag:
         defs.append('(define nxt (fn [] (reval %s 1)))' % s1)
         self.funcs = [('rd', 0), ('pick', 1), ('nxt', 0)]
         return defs
+
+
+# ------------------------------------------------------------------ WAL text generator (reader grammar)
+READER_ALPHABET = list('abcxyz019 \t\n()[]{}\'`,@~#"\;:.+-*/<>=!&|_$%^?') + ['0x', '0b', '1.5', '#t', 'true', ',@', '&&', '§']
+OPERATOR_WORDS = ['+', '-', '*', '/', '&&', '||', '=', '!=', '>', '<', '>=', '<=', '!', '**', 'if', 'do', 'let', 'define', 'list',
+                  'print', 'step', 'find', 'quote', 'reval', 'slice', 'resolve-scope', 'fn', 'set', 'in-scope']
+SYMBOLS = ['a', 'x1', 'foo', 'top.u.sig', 'd<3>', 'a_b', '_t', '.dot', 'sig-n', 'a+b', 'x->y', 'a:b', 'a,b', 'q?', 'p!', 'n%m',
+           'v$1', 'w|z', 'trueish', 'falsey', 'iff', 'T', 'a=b', 'u~v', 'c^d', 'tid^top.a', 'x§y']
+
+
+class WalText:
+    """expressions as token trees: ('atom', text) | ('list', open, [elems]) | ('prefix', p, e) | ('bit', e, i) |
+    ('slice', e, h, l) | ('at', e, k)"""
+
+    def __init__(self, rng, escaped=True, floats=True):
+        self.rng = rng
+        self.escaped = escaped
+        self.floats = floats
+
+    def integer(self, bits=None):
+        rng = self.rng
+        bits = bits if bits is not None else rng.choice([1, 3, 8, 16, 31, 32, 33, 53, 64, 65, 128, 200, 300])
+        v = rng.getrandbits(bits)
+        base = rng.choice(['dec', 'dec', 'hex', 'bin', 'neg', 'plus'])
+        if base == 'dec':
+            return str(v), v
+        if base == 'hex':
+            t = format(v, rng.choice(['x', 'X']))
+            return '0x' + rng.choice(['', '0', '00']) + t, v
+        if base == 'bin':
+            return '0b' + rng.choice(['', '0']) + format(v, 'b'), v
+        if base == 'neg':
+            return '-' + str(v), -v
+        return '+' + str(v), v
+
+    def string(self):
+        rng = self.rng
+        n = rng.randrange(0, 12)
+        s = ''
+        txt = '"'
+        for _ in range(n):
+            r = rng.random()
+            if r < 0.6:
+                c = chr(rng.randrange(32, 127))
+            else:
+                c = rng.choice(['\n', '\t', '\\', '"', "'", '\r', '\a', '\b', '\f', '\v', '\x01', 'A'])
+            s += c
+            if c == '"':
+                txt += '\\"'
+            elif c == '\\':
+                txt += '\\\\'
+            elif c == '\n':
+                txt += '\\n'
+            elif c == '\t':
+                txt += rng.choice(['\\t', '\t'])
+            elif c == '\r':
+                txt += '\\r'
+            elif c == "'":
+                txt += rng.choice(["'", "\\'"])
+            elif c in '\a\b\f\v':
+                txt += {'\a': '\\a', '\b': '\\b', '\f': '\\f', '\v': '\\v'}[c]
+            elif c == '\x01':
+                txt += rng.choice(['\\x01', '\\001'])
+            elif c == 'A' and rng.random() < 0.5:
+                txt += rng.choice(['\\x41', '\\101'])
+            else:
+                txt += c
+        return txt + '"', s
+
+    def atom(self):
+        rng = self.rng
+        r = rng.random()
+        if r < 0.30:
+            return ('atom', rng.choice(SYMBOLS))
+        if r < 0.50:
+            return ('atom', self.integer()[0])
+        if r < 0.58 and self.floats:
+            return ('atom', rng.choice(['1.5', '-0.25', '3.', '0.0', '10.125', '+2.5', '123456.789', '0.1', '-7.']))
+        if r < 0.66:
+            return ('atom', rng.choice(['#t', '#f', 'true', 'false']))
+        if r < 0.78:
+            return ('atom', self.string()[0])
+        if r < 0.90:
+            return ('atom', rng.choice(OPERATOR_WORDS))
+        if r < 0.95:
+            return ('prefix', rng.choice(['~', '#']), ('atom', rng.choice(['clk', 'a.b', 'valid', 'true', 'tt', 'ready<1>', 'load'])))
+        if self.escaped:
+            return ('atom', '\\' + rng.choice(['foo', 'a(b', 'x[1]', '1abc', 'q"r']))
+        return ('atom', 'esc')
+
+    def expr(self, depth):
+        rng = self.rng
+        if depth <= 0 or rng.random() < 0.3:
+            return self.atom()
+        r = rng.random()
+        if r < 0.50:
+            return ('list', rng.choice('(([{'), [self.expr(depth - 1) for _ in range(rng.randrange(0, 5))])
+        if r < 0.68:
+            return ('prefix', rng.choice(["'", '`', ',', ',@']), self.expr(depth - 1))
+        if r < 0.78:
+            return ('bit', self.postfixable(depth - 1), self.expr(depth - 1))
+        if r < 0.86:
+            return ('slice', self.postfixable(depth - 1), self.expr(depth - 1), self.expr(depth - 1))
+        return ('at', self.postfixable(depth - 1), self.postfixable(depth - 1))
+
+    def postfixable(self, depth):
+        """an operand for e[i] / e@k that does not itself end in something the postfix would re-attach to"""
+        rng = self.rng
+        r = rng.random()
+        if r < 0.5:
+            return ('atom', rng.choice(['a', 'top.sig', 'd<3>', 'x1', '5', '0x1f', '-3']))
+        if r < 0.8:
+            return ('list', rng.choice('(['), [self.expr(depth - 1) for _ in range(rng.randrange(1, 4))])
+        return ('bit', ('atom', 'v'), ('atom', str(rng.randrange(8))))
+
+
+CLOSE = {'(': ')', '[': ']', '{': '}'}
+
+
+def wal_render(e, ws=None):
+    """ws: None -> canonical single spaces; callable -> returns separator / optional padding strings"""
+    sep = ws if ws else (lambda must: ' ' if must else '')
+    k = e[0]
+    if k == 'atom':
+        return e[1]
+    if k == 'list':
+        if not e[2]:
+            return e[1] + CLOSE[e[1]]
+        parts = [wal_render(x, ws) for x in e[2]]
+        out = e[1] + sep(False)
+        for i, p in enumerate(parts):
+            out += p
+            if i < len(parts) - 1:
+                # an escaped identifier swallows everything up to white space: it always needs a separator
+                out += sep(True)
+        last = parts[-1]
+        if needs_space_before_close(e[2][-1]):
+            out += ' '
+        return out + sep(False) + CLOSE[e[1]]
+    if k == 'prefix':
+        if e[1] in ('~', '#'):
+            return e[1] + wal_render(e[2], ws)
+        return e[1] + sep(False) + wal_render(e[2], ws)
+    if k == 'bit':
+        return wal_render(e[1], ws) + '[' + sep(False) + wal_render(e[2], ws) + (' ' if needs_space_before_close(e[2]) else sep(False)) + ']'
+    if k == 'slice':
+        h = wal_render(e[2], ws)
+        # a symbol directly before ':' would swallow the colon
+        return wal_render(e[1], ws) + '[' + sep(False) + h + (' ' if ends_symbolic(e[2]) or needs_space_before_close(e[2]) else sep(False)) + ':' + sep(False) + \
+            wal_render(e[3], ws) + (' ' if needs_space_before_close(e[3]) else sep(False)) + ']'
+    if k == 'at':
+        return wal_render(e[1], ws) + '@' + wal_render(e[2], ws)
+    raise ValueError(k)
+
+
+def last_atom(e):
+    k = e[0]
+    if k == 'atom':
+        return e[1]
+    if k == 'prefix':
+        return last_atom(e[2])
+    if k == 'at':
+        return last_atom(e[2])
+    return None
+
+
+def needs_space_before_close(e):
+    t = last_atom(e)
+    return t is not None and t.startswith('\\')
+
+
+def ends_symbolic(e):
+    t = last_atom(e)
+    return t is not None and (t[0].isalpha() or t[0] in '_.\\' or t in ('#t', '#f'))
+
+
+def random_ws(rng):
+    def f(must):
+        r = rng.random()
+        if not must and r < 0.6:
+            return ''
+        return rng.choice([' ', '  ', '\n', '\t', ' \n ', ' ; comment (\n', '\n;; c "x\n ', '\r\n', ' \f '])
+    return f
